@@ -127,6 +127,17 @@ def finishBlock (sc : RScan) : RScan := Id.run do
           | some d => sc := rfail sc s!"stake of {d} entered the reports of {rp} and {m.reporter} in round {round}"
           | none => pure ()
       sc := { sc with rounds := (round, m.reporter, ds) :: sc.rounds, reported := m.reporter :: sc.reported }
+      -- statement-level recomputation (exact integer arithmetic, independent of the model's `reporterStake`):
+      -- whole-token amount the reporter's unlocked selectors have delegated to bonded validators
+      if stakeStable && sc.xs.length == 1 then
+        let active := prev.sels.filter (fun x => x.reporter == m.reporter && x.lockedUntil ≤ sc.now)
+        let spec : Int := (active.map (fun x => ((prev.dels.filter (·.delegator == x.selector)).map (fun d =>
+            match prev.vals.find? (·.name == d.validator) with
+            | some v => if v.bonded && v.shares > 0 then (d.shares * v.tokens) / v.shares else 0
+            | none => 0)).sum)).sum
+        let n : Int := (prev.dels.length : Int) + 1
+        if m.total > spec + n || m.total + n < spec then
+          sc := rfail sc s!"report of {m.reporter} at t={sc.now} carries stake {m.total} (power {m.power}); its active selectors have {spec} delegated to bonded validators"
       -- model stake
       if stakeStable && sc.xs.length == 1 then
         match reporterStake prev sc.now m.reporter with
